@@ -799,6 +799,52 @@ pub fn script_scenario(prop: &str, shape: Shape, scripts: Vec<Vec<Op>>, oracle: 
           );
         }
       }
+      // ---- transparent single-input shapes: what one emitting thread put in comes
+      // out once, in order; all of it when nothing disturbed the subscription
+      if matches!(shape, Shape::Share | Shape::Finalize | Shape::GroupBy) {
+        let a_threads: std::collections::BTreeSet<usize> =
+          calls.iter().filter(|c| matches!(c.op, Op::NextA(_))).map(|c| c.thread).collect();
+        let first_end = calls
+          .iter()
+          .filter(|c| matches!(c.op, Op::CompleteA | Op::ErrorA | Op::Unsubscribe | Op::UnsubSubject))
+          .map(|c| c.start)
+          .min()
+          .unwrap_or(u64::MAX);
+        let mut ac: Vec<&Call> = calls.iter().filter(|c| matches!(c.op, Op::NextA(_))).collect();
+        ac.sort_by_key(|c| c.start);
+        let val = |c: &Call| if let Op::NextA(v) = c.op { v } else { 0 };
+        let a_items: Vec<Item> = ac.iter().map(|c| val(c)).collect();
+        let notes = p0.notes();
+        let got: Vec<Item> = notes.iter().filter_map(|n| if let Note::N(v) = n { Some(*v) } else { None }).collect();
+        let mut bad: Option<String> = None;
+        for v in &got {
+          if !a_items.contains(v) {
+            bad = Some(format!("item {v} was never emitted"));
+          } else if got.iter().filter(|x| *x == v).count() > 1 {
+            bad = Some(format!("item {v} delivered more than once"));
+          }
+        }
+        if bad.is_none() && a_threads.len() <= 1 {
+          let pos: Vec<usize> = got.iter().map(|v| a_items.iter().position(|x| x == v).unwrap()).collect();
+          if pos.windows(2).any(|w| w[0] >= w[1]) {
+            bad = Some("items delivered out of order".into());
+          }
+        }
+        if bad.is_none() {
+          // an item whose call had returned before any terminal / teardown call started
+          for c in ac.iter().filter(|c| c.end < first_end) {
+            if !got.contains(&val(c)) {
+              bad = Some(format!("next({}) had returned before any terminal or unsubscribe started, yet it was not delivered", val(c)));
+            }
+          }
+        }
+        if let Some(b) = bad {
+          ctx.fail(
+            format!("{prop}:content:{}", shape.name()),
+            format!("source emitted {a_items:?}, the early subscriber saw [{}]: {b}", fmt_notes(&notes)),
+          );
+        }
+      }
       // ---- rate limiting (C09): only source items, each at most once, in source
       // order; an undisturbed source that completed got its last item through
       // (debounce: always the final one; throttle with both edges: the first of
@@ -1399,6 +1445,210 @@ pub fn share_scenario(bound: u32, max_execs: u64) -> Scenario {
   }
 }
 
+// ----------------------------------------------------------- tickers
+
+/// operators that own a periodic task
+#[derive(Clone, Copy, Debug, PartialEq, Eq)]
+pub enum Ticker {
+  BufferTime,
+  BufferCountTime,
+  SampleInterval,
+  /// interval() itself as the source: a_i = i
+  IntervalTake,
+}
+
+/// `kind` over a SubjectThreads, its periodic task a controlled task whose
+/// waiting is a yield; emitting thread(s) run `scripts`, then the main task
+/// unsubscribes (which must retire the ticker) and joins everything.
+pub fn ticker_scenario(kind: Ticker, scripts: Vec<Vec<Op>>, bound: u32, max_execs: u64) -> Scenario {
+  let scripts: Vec<Vec<Op>> = scripts
+    .into_iter()
+    .enumerate()
+    .map(|(t, s)| {
+      s.into_iter()
+        .enumerate()
+        .map(|(k, o)| match o {
+          Op::NextA(_) => Op::NextA(10 * (t as Item + 1) + k as Item),
+          o => o,
+        })
+        .collect()
+    })
+    .collect();
+  let name = format!("ticker {kind:?} {} c<={bound}", scripts_name(&scripts));
+  Scenario {
+    name,
+    sig: format!("{kind:?}"),
+    bound,
+    max_execs,
+    body: Arc::new(move |ctx: &Arc<Ctx>, out: &mut Out| {
+      use_yield_timers();
+      let a = Subj::default();
+      let p0 = TProbe::new("p0", ctx);
+      let fold = |v: Vec<Item>| v.iter().fold(0, |acc, x| acc * 100 + x);
+      let pipe: Pipe = match kind {
+        Ticker::BufferTime => a.clone().buffer_with_time(ticks(1), pool_scheduler()).map(fold).box_it(),
+        Ticker::BufferCountTime => a
+          .clone()
+          .buffer_with_count_and_time(2, ticks(1), pool_scheduler())
+          .map(fold)
+          .box_it(),
+        Ticker::SampleInterval => a
+          .clone()
+          .sample_threads(observable::interval(ticks(1), pool_scheduler()).on_error_map(|e: std::convert::Infallible| -> Er { match e {} }))
+          .box_it(),
+        Ticker::IntervalTake => observable::interval(ticks(1), pool_scheduler())
+          .map(|n| n as Item)
+          .on_error_map(|e: std::convert::Infallible| -> Er { match e {} })
+          .take(3)
+          .box_it(),
+      };
+      let sub0 = pipe.actual_subscribe(p0.clone());
+      let calls: Arc<Mutex<Vec<Call>>> = Arc::new(Mutex::new(vec![]));
+      let mut hs = vec![];
+      for (i, script) in scripts.iter().enumerate() {
+        let (script, a, calls, ctx2) = (script.clone(), a.clone(), calls.clone(), ctx.clone());
+        hs.push(shuttle::thread::spawn(move || {
+          for op in script {
+            let start = ctx2.stamp();
+            match op {
+              Op::NextA(v) => a.clone().next(v),
+              Op::CompleteA => a.clone().complete(),
+              Op::ErrorA => a.clone().error(7),
+              _ => {}
+            }
+            let end = ctx2.stamp();
+            calls.lock().unwrap().push(Call { thread: i, op, start, end });
+          }
+        }));
+      }
+      for h in hs {
+        h.join().unwrap();
+      }
+      let waits_before = timer_waits();
+      let calls = calls.lock().unwrap().clone();
+      let terminated_by_source = calls.iter().any(|c| matches!(c.op, Op::CompleteA | Op::ErrorA));
+      if kind == Ticker::IntervalTake {
+        // take(3) ends the stream: the ticker retires by itself, nobody unsubscribes
+        drain_pool(true);
+        drop(sub0);
+      } else {
+        if !terminated_by_source {
+          sub0.unsubscribe();
+        } else {
+          drop(sub0);
+        }
+        let at = ctx.stamp();
+        drain_pool(true);
+        for e in p0.evs() {
+          if !terminated_by_source && e.enter > at {
+            ctx.fail(
+              format!("C09:after-unsubscribe:{kind:?}"),
+              format!("{:?} was delivered after unsubscribe() had returned", e.note),
+            );
+          }
+        }
+      }
+      let _ = waits_before;
+      if timer_waits() + 1 >= MAX_TICKS {
+        ctx.fail(
+          format!("C09:ticker-not-retired:{kind:?}"),
+          format!("the periodic task was still ticking after {} timer waits", timer_waits()),
+        );
+      }
+      // ------------------------------------------------ oracle
+      let notes = p0.notes();
+      if !p0.grammar_ok() {
+        ctx.fail(format!("C09:grammar:{kind:?}"), format!("probe saw [{}]", fmt_notes(&notes)));
+      }
+      {
+        let mut v = ctx.viol.lock().unwrap();
+        for x in v.iter_mut() {
+          if x.class == "overlap" {
+            x.class = format!("C09:overlap:{kind:?}");
+          }
+        }
+      }
+      let mut ac: Vec<&Call> = calls.iter().filter(|c| matches!(c.op, Op::NextA(_))).collect();
+      ac.sort_by_key(|c| c.start);
+      let a_items: Vec<Item> = ac.iter().map(|c| if let Op::NextA(v) = c.op { v } else { 0 }).collect();
+      let one_thread = ac.iter().map(|c| c.thread).collect::<std::collections::BTreeSet<_>>().len() <= 1;
+      let got: Vec<Item> = notes.iter().filter_map(|n| if let Note::N(v) = n { Some(*v) } else { None }).collect();
+      let completed = calls.iter().any(|c| c.op == Op::CompleteA);
+      let failed = calls.iter().any(|c| c.op == Op::ErrorA);
+      let mut bad: Option<String> = None;
+      match kind {
+        Ticker::BufferTime | Ticker::BufferCountTime => {
+          let mut flat: Vec<Item> = vec![];
+          for v in &got {
+            let mut b = vec![];
+            let mut x = *v;
+            while x > 0 {
+              b.push(x % 100);
+              x /= 100;
+            }
+            b.reverse();
+            if b.is_empty() {
+              bad = Some("an empty buffer was delivered".into());
+            }
+            if kind == Ticker::BufferCountTime && b.len() > 2 {
+              bad = Some(format!("a buffer of {} items exceeds the count limit 2", b.len()));
+            }
+            flat.extend(b);
+          }
+          for v in &flat {
+            if !a_items.contains(v) {
+              bad = Some(format!("item {v} was never emitted"));
+            } else if flat.iter().filter(|x| *x == v).count() > 1 {
+              bad = Some(format!("item {v} is in the buffers more than once"));
+            }
+          }
+          if bad.is_none() && one_thread && (flat.len() > a_items.len() || flat[..] != a_items[..flat.len()]) {
+            bad = Some(format!("the concatenated buffers {flat:?} are not a prefix of the source"));
+          }
+          if bad.is_none() && completed && !failed && one_thread {
+            let mut f = flat.clone();
+            f.sort();
+            let mut w = a_items.clone();
+            w.sort();
+            if f != w || notes.last() != Some(&Note::C) {
+              bad = Some(format!("the source completed; the concatenated buffers {flat:?} are not the whole source followed by the completion"));
+            }
+          }
+        }
+        Ticker::SampleInterval => {
+          for v in &got {
+            if !a_items.contains(v) {
+              bad = Some(format!("item {v} was never emitted"));
+            } else if got.iter().filter(|x| *x == v).count() > 1 {
+              bad = Some(format!("item {v} delivered more than once"));
+            }
+          }
+          if bad.is_none() && one_thread {
+            let pos: Vec<usize> = got.iter().map(|v| a_items.iter().position(|x| x == v).unwrap()).collect();
+            if pos.windows(2).any(|w| w[0] >= w[1]) {
+              bad = Some("items delivered out of source order".into());
+            }
+          }
+        }
+        Ticker::IntervalTake => {
+          if notes != vec![Note::N(0), Note::N(1), Note::N(2), Note::C] {
+            bad = Some("interval().take(3) must deliver 0 1 2 and complete".into());
+          }
+        }
+      }
+      if let Some(b) = bad {
+        ctx.fail(
+          format!("C09:ticker-content:{kind:?}"),
+          format!("source emitted {a_items:?}, output [{}]: {b}", fmt_notes(&notes)),
+        );
+      }
+      out.delivered = notes.len() as u64;
+      out.note(&notes);
+      out.trace.push(format!("p0 [{}] timer waits {}", fmt_notes(&notes), timer_waits()));
+    }),
+  }
+}
+
 /// share_threads: A joins while B joins and leaves again
 pub fn share_leave_scenario(bound: u32, max_execs: u64) -> Scenario {
   Scenario {
@@ -1828,9 +2078,20 @@ pub fn plan(prop: &str, tier: Tier) -> Option<Plan> {
       ] {
         sc.push(script_scenario("C09", Shape::Sample, s, Oracle::Serialise, c, CAP));
       }
+      sc.push(ticker_scenario(Ticker::IntervalTake, vec![], c + 1, CAP));
+      for kind in [Ticker::BufferTime, Ticker::BufferCountTime, Ticker::SampleInterval] {
+        for s in [
+          vec![vec![Op::NextA(1), Op::NextA(2), Op::CompleteA]],
+          vec![vec![Op::NextA(1), Op::NextA(2), Op::NextA(3)]],
+          vec![vec![Op::NextA(1), Op::ErrorA]],
+        ] {
+          sc.push(ticker_scenario(kind, s, c, CAP));
+        }
+        sc.push(ticker_scenario(kind, vec![vec![Op::NextA(1), Op::NextA(2)], vec![Op::NextA(3)]], c - 1, CAP));
+      }
       Some(Plan {
         scenarios: sc,
-        rule: "debounce and throttle_time (both edges) over a SubjectThreads with every timer task its own controlled task that may run at any moment, sample_threads with the notifier driven by a second thread: one or two emitting threads (1-3 next, optionally a terminal) and optionally an unsubscribing thread; every schedule within the preemption bound; oracle once everything has returned and the pool is drained: the output consists of source items only, each at most once, in source order (when one thread emits); an undisturbed completed source got its final item through (throttle: also its first) followed by the completion; no overlapping callbacks, grammar, nothing blocks".into(),
+        rule: "debounce and throttle_time (both edges) over a SubjectThreads with every timer task its own controlled task that may run at any moment, sample_threads with the notifier driven by a second thread: one or two emitting threads (1-3 next, optionally a terminal) and optionally an unsubscribing thread; every schedule within the preemption bound; buffer_with_time, buffer_with_count_and_time and sample(interval) with their periodic task a controlled task whose wait for the next period is a yield (everybody else is offered first; resuming the ticker before them is charged like a preemption), ended by the source's terminal or by unsubscribe(), which must retire the ticker; oracle once everything has returned and the pool is drained: the output consists of source items only, each at most once, in source order (when one thread emits); an undisturbed completed source got its final item through (throttle: also its first) followed by the completion; buffers are never empty, never exceed the count limit, their concatenation is a prefix of the source and all of it when the source completed; nothing is delivered after unsubscribe() returned and the ticker stops; no overlapping callbacks, grammar, nothing blocks".into(),
         bounds: json!({"preemptions": c}),
         assumptions: vec!["sequentially consistent memory".into(), "a timer is a point at which its task may be postponed arbitrarily (virtual time itself is engine E1's subject)".into()],
       })
